@@ -37,6 +37,8 @@ def run(db, chk) -> None:
     from .c12 import check_trim, check_trim_guard
     check_trim(db, chk, "C01.R9-only-the-trailing-step-is-removed")          # the one row removal on the load path (decided in full by C12)
     check_trim_guard(db, chk, "C01.R9-only-the-trailing-step-is-removed")
+    from ..specs.endcoherence import check_parser_time_dtype
+    check_parser_time_dtype(db, chk, "C01.R10-time-dtype")
     check_rank_association(db, chk, "C01.R8-rank-file-association")   # a rank's frame and metadata come from THAT rank's file
     chk.floor("C01.R8-rank-file-association", 4)
     check_reencoding(db, chk, "C01.R6-re-encoding")     # after loading a set of ranks every rank's rows decode to the file's names
